@@ -39,18 +39,39 @@ def _isin(e, names):
     return "(" + " or ".join("%s == '%s'" % (e, n) for n in names) + ")"
 
 
+from contracts.c04_typeunit import TUOwnerT, SIG_RI, SigMapT, TypesSecT
+from specs.dwarf import tu_at, types_wellformed
+
+SigOwnerT = Obj('DWARFInfo', _inv=SIG_RI + CU_RI, _rep=('_type_units_by_sig', '_cu_cache', '_cu_offsets_map'),
+                debug_types_sec=SymOpt(TypesSecT), debug_info_sec=InfoSecT, structs=TUOwnerT.attrs['structs'], config=TUOwnerT.attrs['config'],
+                _type_units_by_sig=SymOpt(SigMapT), _cu_cache=DWARFInfoT.attrs['_cu_cache'], _cu_offsets_map=ListOf(Nat))
+
+
+@contract("elftools/dwarf/dwarfinfo.py", "DWARFInfo.iter_CUs", props=["C04"])
+class iter_cus_inl:
+    inline = True
+
+
 @contract("elftools/dwarf/dwarfinfo.py", "DWARFInfo.get_DIE_by_sig8", props=["C04"])
 class get_die_by_sig8:
-    """(assumed at the dispatch's call site; the lookup of a type unit by signature -- version 4 .debug_types map,
-    version 5 type units of .debug_info -- is covered by the bounded reference-resolution differential of
-    tasks/c04_refs.py only)"""
-    mode = 'assume'
+    """a type signature registered in .debug_types resolves to the entry at type_offset (relative to the unit) of the type
+    unit whose header carries that signature.  The scan of the version 5 type units of .debug_info that follows a miss is
+    explored but NOT specified here: the unit objects the unit walk yields carry no version 5 header members in this
+    contract's view, so no claim is made about what that scan returns (the bounded reference differential decides it)."""
+    params = dict(self=SigOwnerT, sig8=U(64))
+    requires = ["self.debug_types_sec is None or types_wellformed(self.debug_types_sec.stream.B)"]
+    modifies = ["*rep", "self.debug_types_sec.stream.pos", "self.debug_info_sec.stream.pos"]
+    rep_reader = True
     returns = DIET
+    loops = {0: dict(invariant=CU_RI + SIG_RI)}
+    ensures = ["@check @when final_tu is not None :: final_tu.header.signature == sig8"
+               " and tu_at(final_tu, self.debug_types_sec.stream.B, final_tu.tu_offset)",
+               "@check @when final_tu is not None :: die_at(result, final_tu, final_tu.tu_offset + final_tu.header.type_offset)"]
     may_raise = PARSE_EXC
 
 
 SupInfoT = Obj('DWARFInfo')
-RefDInfoT = DWARFInfoT.extend(supplementary_dwarfinfo=SymOpt(SupInfoT))
+RefDInfoT = SigOwnerT.extend(supplementary_dwarfinfo=SymOpt(SupInfoT))
 RefCUT = CUFull.extend(dwarfinfo=RefDInfoT)
 RefDIET = Obj('DIE', offset=Nat, attributes=DictOf(AttrT), cu=RefCUT, dwarfinfo=Alias('cu.dwarfinfo'))
 REF_NAMES = ('DW_AT_type', 'DW_AT_sibling', 'DW_AT_specification', 'DW_AT_abstract_origin', 'DW_AT_signature', 'DW_AT_import')
@@ -66,7 +87,8 @@ class get_die_from_attribute:
     reference class is rejected.  The attribute name only selects the attribute (checked for six reference
     attributes: the engine looks attribute tables up with constant keys)."""
     params = dict(self=RefDIET, name=OneOf(*REF_NAMES))
-    requires = ["name in self.attributes", _isin("self.attributes[name].form", DIE_FORMS)]
+    requires = ["name in self.attributes", _isin("self.attributes[name].form", DIE_FORMS),
+                "self.cu.dwarfinfo.debug_types_sec is None or types_wellformed(self.cu.dwarfinfo.debug_types_sec.stream.B)"]
     modifies = ["*rep"]
     returns = DIET
     own_raises = {"DWARFError": "not " + _isin("self.attributes[name].form", REF_CLASS),
